@@ -76,3 +76,25 @@ Proof.
   - apply hkdf_expand_too_long with (H := sm3) (hlen := 32); [exact sm3_stream | exact sm3_len | lia | exact HL].
   - apply hkdf_expand_too_long with (H := sha256) (hlen := 32); [exact sha256_stream | exact sha256_len | lia | exact HL].
 Qed.
+
+(* continuing from any installed chaining state and block counter *)
+Lemma from_state_64 compress out st nb chunks :
+  from_state_impl compress out 64 8 len64_impl st nb chunks
+  = from_state_spec compress out 64 8 len64_spec st nb (concat chunks).
+Proof.
+  unfold from_state_impl, from_state_spec.
+  apply md_stream with (Lok := fun _ => True);
+    [lia | lia | apply len64_spec_length
+    | intros k r Hr _; apply len64_md; exact Hr | exact I].
+Qed.
+
+Lemma from_state_128 compress out st nb chunks :
+  (nb + N.of_nat (length (concat chunks) / 128) < 2^64)%N ->
+  from_state_impl compress out 128 16 len128_impl st nb chunks
+  = from_state_spec compress out 128 16 len128_spec st nb (concat chunks).
+Proof.
+  intros H. unfold from_state_impl, from_state_spec.
+  apply md_stream with (Lok := fun k => (nb + N.of_nat k < 2^64)%N);
+    [lia | lia | reflexivity
+    | intros k r Hr Hk; apply len128_md; assumption | exact H].
+Qed.
